@@ -50,6 +50,7 @@ def _case(draw, size=1):
     spec.update(draw(gens.route()))
     end = max([n[3] for n in notes] + [m[1] for m in meta] + [0])
     spec["pad"] = draw(st.one_of(st.none(), st.just(end + draw(st.integers(0, 30)))))
+    gens.late_notes(draw, spec, one_in=8)
     gens.far_shift(draw, spec, extra=(2 ** 60 + 5, 2 ** 56 + 1))       # (integer arithmetic must stay exact beyond 2**53)
     if draw(st.integers(0, 7)) == 0:
         spec["double"] = draw(st.sampled_from(["self", "fresh"]))     # the material twice: one message object, two positions
